@@ -4,6 +4,9 @@ import CgtModel.Lemmas.PrepassAppend
 import CgtModel.Lemmas.AppendLedger
 import CgtModel.Lemmas.WellFormed
 import CgtModel.Props.C02
+import CgtModel.Props.C04
+import CgtModel.Lemmas.YearSlice
+import CgtModel.Lemmas.SpecTable
 /-! # C12 — figures for earlier years do not change when later transactions are added
 
 Statement: once every transaction up to 30 days after a disposal is present, its legs, costs and gain
@@ -35,6 +38,11 @@ from the pool the history left, with no claims carried over. Hence
   security, the refusal is raised while running days of `s` from the history's closing pool.
   (Line order: `l ++ s` is the appended form the property speaks of; any other order of the same lines
   gives the same day table by C06's permutation theorems.)
+* `C12_year_final`, `C12_year_summary_final` — **the report**: with no capital return / accumulation among
+  the later lines and none of them dated in tax year `y`, that year's disposals in the extended ledger's
+  report are the history's (the same records, up to the order of listing), and its total gains, total
+  losses, net gain, dividend income and dividend tax are the same (`slice_unsorted`: the unsorted
+  disposal list, security by security, `Lemmas/YearSlice.lean`).
 -/
 namespace Cgt.C12
 open Cgt
@@ -170,16 +178,34 @@ theorem daysOf_ord_mem (t : String) (s : List Tx) : ∀ d ∈ daysOf t (preproce
   obtain ⟨b, hb, e'⟩ := preprocess_ord_mem s y hy'
   exact ⟨b, hb, by rw [e]; exact e'⟩
 
+theorem preprocess_date_mem (s : List Tx) : ∀ y ∈ preprocess s, ∃ b ∈ s, y.date = b.date :=
+  preprocess_forall (fun x => ∃ b ∈ s, x.date = b.date) (fun _ _ _ _ h => h) (fun _ _ _ _ h => h) s
+    (fun x hx => ⟨x, hx, rfl⟩)
+
+theorem daysOf_date_mem (t : String) (s : List Tx) : ∀ d ∈ daysOf t (preprocess s), ∃ b ∈ s, d.date = b.date := by
+  intro d hd
+  unfold daysOf at hd
+  obtain ⟨x, hx, e⟩ := groupDays_date_mem _ d hd
+  have hm : x ∈ indexed (preprocess s) := (List.mem_filter.mp hx).1
+  unfold indexed at hm
+  simp only [List.mem_map] at hm
+  obtain ⟨⟨y, j⟩, hy, rfl⟩ := hm
+  have hy' : y ∈ preprocess s := by
+    have := List.mem_zipIdx hy
+    rw [this.2.2]; exact List.getElem_mem _
+  obtain ⟨b, hb, e'⟩ := preprocess_date_mem s y hy'
+  exact ⟨b, hb, by rw [e]; exact e'⟩
+
 /-- **C12 from the raw ledger, one security**: `l` is the history, `s` the lines added later, every one of
     them dated more than 30 days after every line of `l`, none of them a capital return or accumulation of
     security `t`. If the history alone is accepted for `t`, the extended ledger's run for `t` is the
     history's run followed by a run of the later days from the history's closing pool: same legs for the
-    history's disposals, and any refusal is raised by the later days. -/
-theorem C12_ledger_security (l s : List Tx) (hw : WellFormed (l ++ s))
+    history's disposals, and any refusal is raised by the later days.  The days of the later run are dated by lines of `s`. -/
+theorem C12_ledger_security_dated (l s : List Tx) (hw : WellFormed (l ++ s))
     (hfar : ∀ a ∈ l, ∀ b ∈ s, b.ord - a.ord > bnbWindowDays) (t : String) (hne : noEventLines t s)
     (pool1 : Option Pool) (legs1 : List Leg)
     (h1 : runTicker t bnbWindowDays (daysOf t (preprocess l)) = .ok (pool1, legs1)) :
-    ∃ es : List Day, (∀ d ∈ es, ∃ b ∈ s, d.ord = b.ord) ∧
+    ∃ es : List Day, (∀ d ∈ es, ∃ b ∈ s, d.date = b.date) ∧
       runTicker t bnbWindowDays (daysOf t (preprocess (l ++ s))) =
       (match runDays t bnbWindowDays pool1 es [] with
        | .error e => .error e
@@ -227,8 +253,25 @@ theorem C12_ledger_security (l s : List Tx) (hw : WellFormed (l ++ s))
   unfold C02.setOffsets at hd
   simp only [List.mem_map] at hd
   obtain ⟨d1, ⟨d0, hd0, rfl⟩, rfl⟩ := hd
-  obtain ⟨b, hb, eb⟩ := daysOf_ord_mem t s d0 hd0
+  obtain ⟨b, hb, eb⟩ := daysOf_date_mem t s d0 hd0
   exact ⟨b, hb, eb⟩
+
+
+/-- the same with the later days located by ordinal -/
+theorem C12_ledger_security (l s : List Tx) (hw : WellFormed (l ++ s))
+    (hfar : ∀ a ∈ l, ∀ b ∈ s, b.ord - a.ord > bnbWindowDays) (t : String) (hne : noEventLines t s)
+    (pool1 : Option Pool) (legs1 : List Leg)
+    (h1 : runTicker t bnbWindowDays (daysOf t (preprocess l)) = .ok (pool1, legs1)) :
+    ∃ es : List Day, (∀ d ∈ es, ∃ b ∈ s, d.ord = b.ord) ∧
+      runTicker t bnbWindowDays (daysOf t (preprocess (l ++ s))) =
+      (match runDays t bnbWindowDays pool1 es [] with
+       | .error e => .error e
+       | .ok (pool2, legs2) => .ok (pool2, legs1 ++ legs2)) := by
+  obtain ⟨es, hd, hes⟩ := C12_ledger_security_dated l s hw hfar t hne pool1 legs1 h1
+  refine ⟨es, ?_, hes⟩
+  intro d hdm
+  obtain ⟨b, hb, e⟩ := hd d hdm
+  exact ⟨b, hb, by unfold Day.ord Tx.ord; rw [e]⟩
 
 /-- **C12 at ledger level**: if the history and the extended ledger are both accepted, every security
     of the history for which the later lines carry no capital return / accumulation keeps, in the
@@ -278,5 +321,210 @@ def exLater : List Tx :=
     ⟨⟨2024, 6, 1⟩, "B", .capreturn 5 1 0⟩ ]
 example : WellFormed (exHist ++ exLater) ∧ (∀ a ∈ exHist, ∀ b ∈ exLater, b.ord - a.ord > bnbWindowDays) ∧
     noEventLines "A" exLater ∧ ¬ noEventLines "B" exLater := by decide +kernel
+
+
+/-! ### the report: a finished tax year stays as it was -/
+
+/-- the legs the model gives security `t` in ledger `L` (none when its run is refused) -/
+def legsOf (L : List Tx) (t : String) : List Leg :=
+  match runTicker t bnbWindowDays (daysOf t (preprocess L)) with
+  | .ok (_, legs) => legs
+  | .error _ => []
+
+theorem legs_eq_legsOf (L : List Tx) (rs : List TickerResult) (h : run bnbWindowDays L = .ok rs) :
+    ∀ r ∈ rs, r.legs = legsOf L r.ticker := by
+  intro r hr
+  have := C02.run_result bnbWindowDays L rs h r hr
+  unfold legsOf; rw [this]
+
+/-- the disposals of an accepted run before sorting, security by security in order of first appearance -/
+theorem disposals_by_ticker (dp : Nat) (L : List Tx) (rs : List TickerResult) (h : run bnbWindowDays L = .ok rs) :
+    (rs.map (fun r => groupLegs dp r.ticker r.legs)).flatten
+      = (tickersOf (preprocess L)).flatMap (fun t => groupLegs dp t (legsOf L t)) := by
+  have e : rs.map (fun r => groupLegs dp r.ticker r.legs) = (rs.map (·.ticker)).map (fun t => groupLegs dp t (legsOf L t)) := by
+    rw [List.map_map]
+    apply List.map_congr_left
+    intro r hr
+    simp only [Function.comp, legs_eq_legsOf L rs h r hr]
+  rw [e, run_tickers bnbWindowDays L rs h, List.flatMap_def]
+
+
+/-- one security's slice of the disposals under a date predicate that no later line satisfies -/
+theorem slice_security (dp : Nat) (l s : List Tx) (hw : WellFormed (l ++ s))
+    (hfar : ∀ a ∈ l, ∀ b ∈ s, b.ord - a.ord > bnbWindowDays) (t : String) (hne : noEventLines t s)
+    (pool1 : Option Pool) (legs1 : List Leg)
+    (h1 : runTicker t bnbWindowDays (daysOf t (preprocess l)) = .ok (pool1, legs1))
+    (pool : Option Pool) (legs : List Leg)
+    (h2 : runTicker t bnbWindowDays (daysOf t (preprocess (l ++ s))) = .ok (pool, legs))
+    (p : Date → Bool) (hp : ∀ b ∈ s, p b.date = false) :
+    (groupLegs dp t legs).filter (fun d => p d.date) = (groupLegs dp t legs1).filter (fun d => p d.date) := by
+  obtain ⟨es, hdate, hes⟩ := C12_ledger_security_dated l s hw hfar t hne pool1 legs1 h1
+  rw [hes] at h2
+  split at h2
+  · cases h2
+  · rename_i pool2 legs2 hrd
+    simp only [Except.ok.injEq, Prod.mk.injEq] at h2
+    rw [← h2.2]
+    apply groupLegs_append_filter
+    intro x hx
+    obtain ⟨d, hd, e⟩ := runDays_sellDate t bnbWindowDays es pool1 pool2 [] legs2 hrd x hx
+    obtain ⟨b, hb, eb⟩ := hdate d hd
+    rw [e, eb]
+    exact hp b hb
+
+theorem runTicker_nil (t : String) (w : Int) : runTicker t w [] = .ok (none, []) := by
+  simp [runTicker, withOffsets, prepass, runDays]
+
+theorem mem_tickers_run (L : List Tx) (rs : List TickerResult) (h : run bnbWindowDays L = .ok rs) (t : String)
+    (ht : t ∈ tickersOf (preprocess L)) :
+    ∃ pool legs, runTicker t bnbWindowDays (daysOf t (preprocess L)) = .ok (pool, legs) ∧ legsOf L t = legs := by
+  rw [← run_tickers bnbWindowDays L rs h] at ht
+  simp only [List.mem_map] at ht
+  obtain ⟨r, hr, rfl⟩ := ht
+  have := C02.run_result bnbWindowDays L rs h r hr
+  exact ⟨r.pool, r.legs, this, by unfold legsOf; rw [this]⟩
+
+/-- **the slice of the unsorted disposal list**: under a date predicate no later line satisfies, the
+    extended ledger's disposals are the history's -/
+theorem slice_unsorted (dp : Nat) (l s : List Tx) (hw : WellFormed (l ++ s))
+    (hfar : ∀ a ∈ l, ∀ b ∈ s, b.ord - a.ord > bnbWindowDays) (hne : ∀ t, noEventLines t s)
+    (rs1 rs : List TickerResult) (h1 : run bnbWindowDays l = .ok rs1) (h : run bnbWindowDays (l ++ s) = .ok rs)
+    (p : Date → Bool) (hp : ∀ b ∈ s, p b.date = false) :
+    ((rs.map (fun r => groupLegs dp r.ticker r.legs)).flatten).filter (fun d => p d.date)
+      = ((rs1.map (fun r => groupLegs dp r.ticker r.legs)).flatten).filter (fun d => p d.date) := by
+  have hlt : ∀ a ∈ l, ∀ b ∈ s, a.ord < b.ord := by
+    intro a ha b hb; have := hfar a ha b hb; have := window_is_30; omega
+  rw [disposals_by_ticker dp (l ++ s) rs h, disposals_by_ticker dp l rs1 h1, List.filter_flatMap, List.filter_flatMap]
+  have hT : tickersOf (preprocess (l ++ s)) = tickersOf (preprocess l) ++
+      (((preprocess s).map (·.ticker)).removeAll ((preprocess l).map (·.ticker))).eraseDups := by
+    rw [preprocess_append l s hlt]
+    unfold tickersOf
+    rw [List.map_append, List.eraseDups_append]
+  have hmem : ∀ t ∈ tickersOf (preprocess (l ++ s)), ∃ pool legs,
+      runTicker t bnbWindowDays (daysOf t (preprocess (l ++ s))) = .ok (pool, legs) ∧ legsOf (l ++ s) t = legs :=
+    mem_tickers_run (l ++ s) rs h
+  rw [hT] at hmem ⊢
+  rw [List.flatMap_append]
+  have hA : (tickersOf (preprocess l)).flatMap (fun t => (groupLegs dp t (legsOf (l ++ s) t)).filter (fun d => p d.date))
+      = (tickersOf (preprocess l)).flatMap (fun t => (groupLegs dp t (legsOf l t)).filter (fun d => p d.date)) := by
+    rw [List.flatMap_def, List.flatMap_def]
+    congr 1
+    apply List.map_congr_left
+    intro t ht
+    obtain ⟨pool1, legs1, r1, e1⟩ := mem_tickers_run l rs1 h1 t ht
+    obtain ⟨pool, legs, r2, e2⟩ := hmem t (by simp [ht])
+    rw [e1, e2]
+    exact slice_security dp l s hw hfar t (hne t) pool1 legs1 r1 pool legs r2 p hp
+  have hB : ((((preprocess s).map (·.ticker)).removeAll ((preprocess l).map (·.ticker))).eraseDups).flatMap
+      (fun t => (groupLegs dp t (legsOf (l ++ s) t)).filter (fun d => p d.date)) = [] := by
+    rw [List.flatMap_eq_nil_iff]
+    intro t ht
+    obtain ⟨pool, legs, r2, e2⟩ := hmem t (by simp [ht])
+    have hnot : ∀ x ∈ preprocess l, x.ticker ≠ t := by
+      rw [List.mem_eraseDups] at ht
+      have := (List.mem_filter.mp ht).2
+      intro x hx e
+      have hx' : t ∈ (preprocess l).map (·.ticker) := List.mem_map.mpr ⟨x, hx, e⟩
+      simp [hx'] at this
+    have r1 : runTicker t bnbWindowDays (daysOf t (preprocess l)) = .ok (none, []) := by
+      rw [daysOf_absent t _ hnot]; exact runTicker_nil t _
+    rw [e2, slice_security dp l s hw hfar t (hne t) none [] r1 pool legs r2 p hp]
+    rfl
+  rw [hA, hB, List.append_nil]
+
+
+theorem rsum_perm {a b : List Rat} (h : a.Perm b) : rsum a = rsum b := by
+  induction h with
+  | nil => rfl
+  | cons x _ ih => simp only [rsum_cons, ih]
+  | swap x y l => simp only [rsum_cons]; grind
+  | trans _ _ ih1 ih2 => rw [ih1, ih2]
+
+/-- a year's totals do not depend on the order in which its disposals are listed -/
+theorem totals_perm {a b : List Disposal} (h : a.Perm b) : totals a = totals b := by
+  have ha := C04.C04_totals a
+  have hb := C04.C04_totals b
+  have e1 := rsum_perm (h.map (fun d => C04.posPart d.netGain))
+  have e2 := rsum_perm (h.map (fun d => C04.negPart d.netGain))
+  apply Prod.ext
+  · rw [ha.1, hb.1, e1]
+  · rw [ha.2, hb.2, e2]
+
+theorem dividends_of_history (l s : List Tx) (y : Int) (hy : ∀ b ∈ s, inYear y b.date = false) :
+    dividendsOf (l ++ s) y = dividendsOf l y := by
+  have : s.filter (isDivIn y) = [] := by
+    rw [List.filter_eq_nil_iff]
+    intro b hb
+    unfold isDivIn
+    split
+    · rw [hy b hb]; simp
+    · simp
+  unfold dividendsOf
+  rw [List.filter_append, this, List.append_nil]
+
+/-- **C12 at report level — a finished tax year stays as it was.** `l` is the history, `s` the lines added
+    later: each dated more than 30 days after every line of `l`, none of them a capital return or an
+    accumulation (the property's exclusion), none of them dated in tax year `y`. If the history and the
+    extended ledger are both accepted, then in the extended ledger's report tax year `y` lists the same
+    disposals as in the history's (the same `Disposal` records: date, security, quantity, proceeds, legs
+    with their rules, costs and gains), its total gains and total losses are the same, and so are its
+    dividend income and dividend tax. -/
+theorem C12_year_final (dp : Nat) (l s : List Tx) (hw : WellFormed (l ++ s))
+    (hfar : ∀ a ∈ l, ∀ b ∈ s, b.ord - a.ord > bnbWindowDays) (hne : ∀ t, noEventLines t s)
+    (rs1 rs : List TickerResult) (h1 : run bnbWindowDays l = .ok rs1) (h : run bnbWindowDays (l ++ s) = .ok rs)
+    (y : Int) (hy : ∀ b ∈ s, inYear y b.date = false) :
+    ((allDisposals dp rs).filter (fun d => inYear y d.date)).Perm ((allDisposals dp rs1).filter (fun d => inYear y d.date)) ∧
+    totals ((allDisposals dp rs).filter (fun d => inYear y d.date)) = totals ((allDisposals dp rs1).filter (fun d => inYear y d.date)) ∧
+    dividendsOf (l ++ s) y = dividendsOf l y := by
+  have hs := slice_unsorted dp l s hw hfar hne rs1 rs h1 h (inYear y) hy
+  have hperm : ((allDisposals dp rs).filter (fun d => inYear y d.date)).Perm ((allDisposals dp rs1).filter (fun d => inYear y d.date)) := by
+    unfold allDisposals
+    refine ((List.mergeSort_perm _ _).filter _).trans ?_
+    rw [hs]
+    exact ((List.mergeSort_perm _ _).filter _).symm
+  exact ⟨hperm, totals_perm hperm, dividends_of_history l s y hy⟩
+
+/-- … and so the year's summary: whatever exemption table is in force, tax year `y`'s summary in the
+    extended ledger's report carries the same total gain, total loss, net gain, exemption, dividend income
+    and dividend tax as in the history's report, over the same disposals. -/
+theorem C12_year_summary_final (dp : Nat) (ex : List (Int × Rat)) (l s : List Tx) (hw : WellFormed (l ++ s))
+    (hfar : ∀ a ∈ l, ∀ b ∈ s, b.ord - a.ord > bnbWindowDays) (hne : ∀ t, noEventLines t s)
+    (rs1 rs : List TickerResult) (h1 : run bnbWindowDays l = .ok rs1) (h : run bnbWindowDays (l ++ s) = .ok rs)
+    (y : Int) (hy : ∀ b ∈ s, inYear y b.date = false) (sm1 sm : YearSummary)
+    (e1 : mkSummary ex l y ((allDisposals dp rs1).filter (fun d => inYear y d.date)) = .ok sm1)
+    (e : mkSummary ex (l ++ s) y ((allDisposals dp rs).filter (fun d => inYear y d.date)) = .ok sm) :
+    sm.totalGain = sm1.totalGain ∧ sm.totalLoss = sm1.totalLoss ∧ sm.netGain = sm1.netGain ∧
+    sm.exempt = sm1.exempt ∧ sm.divIncome = sm1.divIncome ∧ sm.divTax = sm1.divTax ∧
+    sm.disposals.Perm sm1.disposals := by
+  obtain ⟨hperm, htot, hdiv⟩ := C12_year_final dp l s hw hfar hne rs1 rs h1 h y hy
+  unfold mkSummary at e1 e
+  cases hx : lookupExemption ex y with
+  | none => rw [hx] at e1; cases e1
+  | some a =>
+    rw [hx] at e1 e
+    simp only [Except.ok.injEq] at e1 e
+    subst e1; subst e
+    simp only [htot, hdiv]
+    exact ⟨trivial, trivial, trivial, trivial, trivial, trivial, hperm⟩
+
+
+-- non-vacuity: a history in 2022/23 with a 30-day match, later lines (a purchase, a split, a sale, a new
+-- security) from 80 days on, all in 2023/24; both ledgers accepted
+def exHist2 : List Tx :=
+  [ ⟨⟨2023, 1, 1⟩, "A", .buy 100 1 0⟩, ⟨⟨2023, 2, 1⟩, "A", .sell 40 2 0⟩, ⟨⟨2023, 2, 10⟩, "A", .buy 10 3 1⟩,
+    ⟨⟨2023, 2, 10⟩, "A", .dividend 7 1⟩ ]
+def exLater2 : List Tx :=
+  [ ⟨⟨2023, 5, 1⟩, "A", .buy 40 3 0⟩, ⟨⟨2023, 5, 1⟩, "A", .split 2⟩, ⟨⟨2023, 6, 1⟩, "A", .sell 30 2 0⟩,
+    ⟨⟨2023, 6, 1⟩, "C", .buy 5 1 0⟩, ⟨⟨2023, 6, 2⟩, "A", .dividend 3 0⟩ ]
+example : WellFormed (exHist2 ++ exLater2) ∧ (∀ a ∈ exHist2, ∀ b ∈ exLater2, b.ord - a.ord > bnbWindowDays) ∧
+    (∀ b ∈ exLater2, inYear 2022 b.date = false) ∧ (∀ b ∈ exLater2, b.op.isEvent = false) ∧
+    (∃ b ∈ exHist2, inYear 2022 b.date = true) := by decide +kernel
+-- both ledgers are accepted (evaluated, not kernel-checked: the run sorts and compares strings)
+#guard (run bnbWindowDays exHist2).toBool && (run bnbWindowDays (exHist2 ++ exLater2)).toBool
+example : ∀ t, noEventLines t exLater2 := by
+  intro t x hx _
+  have : ∀ b ∈ exLater2, b.op.isEvent = false := by decide
+  exact this x hx
+
 
 end Cgt.C12
